@@ -160,7 +160,7 @@ func run(cfg RunConfig) (*Engine, *RunResult, error) {
 	t2 := time.Now()
 	s := newSolver(cfg.Work, cfg.Timeout)
 	s.retry = true
-	s.lastChance = 6 * cfg.Timeout
+	s.lastChance = 4 * cfg.Timeout
 	s.keep = cfg.Keep
 	rr.Solver = s
 	rr.Results = e.dischargeAll(s, e.obls, cfg.Workers)
